@@ -147,7 +147,7 @@ def _gen_request(draws, spec, bundle, idx, profile, want_mut, tier="quick",
     if req.variant == "validation":
         where = op.sel
         where.insert(rs.below(len(where) + 1, "bad_at"), _bad_field())
-    text = render(op, rs.below(4, "layout"))
+    text = render(op, rs.below(4, "layout"), bool(rs.below(2, "frags_first")))
     req.op = op
     req.variables = dict(op.variables)
     req.operation_name = op.operation_name
